@@ -816,7 +816,8 @@ def stream_ppoints(ctx, ncases):
             elif d == "latitude":
                 n = rng.choice([3, 4, 5])
                 lat0 = rng.choice([-60.0, -30.0, 0.0])
-                g = [lat0 + i * rng.choice([10.0, 15.0]) for i in range(n)]
+                dlat = rng.choice([10.0, 15.0])
+                g = [lat0 + i * dlat for i in range(n)]
                 if rng.random() < 0.3:
                     g = list(reversed(g))          # many products store latitude north to south
                 kinds.append("float")
@@ -1160,14 +1161,18 @@ def stream_ids(ctx, ncases):
 
 
 def run(ctx):
-    stream_wdiff(ctx, ctx.n(40, 1500))
-    stream_penc(ctx, ctx.n(120, 5000))
-    stream_paxis(ctx, ctx.n(150, 6000))
-    stream_pgrid(ctx, ctx.n(40, 1500))
-    stream_pspectra(ctx, ctx.n(40, 1500))
-    stream_ppoints(ctx, ctx.n(60, 2500))
-    stream_iper(ctx, ctx.n(150, 6000))
-    stream_ids(ctx, ctx.n(12, 300))
+    stream_wdiff(ctx, ctx.n(80, 1500))
+    stream_penc(ctx, ctx.n(300, 5000))
+    stream_paxis(ctx, ctx.n(400, 6000))
+    stream_pgrid(ctx, ctx.n(100, 1500))
+    stream_pspectra(ctx, ctx.n(100, 1500))
+    stream_ppoints(ctx, ctx.n(150, 2500))
+    stream_iper(ctx, ctx.n(400, 6000))
+    stream_ids(ctx, ctx.n(30, 300))
+
+
+def replay(ctx, obj):
+    B.replay(ctx, obj)
 
 
 READY = False
